@@ -36,9 +36,11 @@ import (
 )
 
 const (
-	mustWait     = 5 * time.Second       // generous "must have returned by now" wait: only exhausted by a real hang
-	courtesyWait = 20 * time.Millisecond // only influences WHERE a Return is logged, never a verdict
-	maxBlocked   = 4                     // stop the run after this many expired generous waits
+	mustWait     = 5 * time.Second        // generous "must have returned by now" wait: only exhausted by a real hang
+	courtesyWait = 20 * time.Millisecond  // only influences WHERE a Return is logged, never a verdict
+	maxBlocked   = 4                      // stop the run after this many expired generous waits
+	graceWait    = 100 * time.Millisecond // gate tier: how long a background Store may take before the gate is released
+	shortCtx     = 60 * time.Millisecond  // gate tier: lifetime of the context of an AwaitShort
 )
 
 // ---------------------------------------------------------------------------------------------------------------
@@ -51,6 +53,41 @@ type stubDL struct {
 	sch     map[core.Duty]bool
 	ch      chan core.Duty
 	lastAdd string
+	// gate tier: the next Add of gateDuty has its answer computed and then BLOCKS until the driver releases it
+	gateDuty *core.Duty
+	inAdd    chan struct{}
+	gate     chan struct{}
+}
+
+// arm: the next Add(d) blocks (after its answer has been decided) until release is called.
+func (s *stubDL) arm(d core.Duty) {
+	s.mu.Lock()
+	defer s.mu.Unlock()
+	s.gateDuty, s.inAdd, s.gate = &d, make(chan struct{}), make(chan struct{})
+}
+
+func (s *stubDL) release() {
+	s.mu.Lock()
+	defer s.mu.Unlock()
+	if s.gate != nil {
+		close(s.gate)
+		s.gate, s.gateDuty = nil, nil
+	}
+}
+
+// hold blocks the calling Add at the gate if it is armed for this duty (called WITHOUT the stub mutex).
+func (s *stubDL) hold(d core.Duty) {
+	s.mu.Lock()
+	var in, g chan struct{}
+	if s.gateDuty != nil && *s.gateDuty == d {
+		in, g = s.inAdd, s.gate
+		s.gateDuty = nil // only one Add is held
+	}
+	s.mu.Unlock()
+	if g != nil {
+		close(in)
+		<-g
+	}
 }
 
 func newStub() *stubDL {
@@ -58,6 +95,13 @@ func newStub() *stubDL {
 }
 
 func (s *stubDL) Add(d core.Duty) core.DeadlineStatus {
+	st := s.add(d)
+	s.hold(d)
+
+	return st
+}
+
+func (s *stubDL) add(d core.Duty) core.DeadlineStatus {
 	s.mu.Lock()
 	defer s.mu.Unlock()
 	switch {
@@ -416,6 +460,7 @@ type run struct {
 	maybe      map[string]int // kind|key -> slot: contained in some Store
 	pendingDel []drv.Step
 	blocked    int
+	bg         []chan struct{} // gate tier: Stores running in the background
 	hung       atomic.Bool
 }
 
@@ -472,13 +517,13 @@ func keysOf(kind string, d map[string]any) []map[string]any {
 	return nil
 }
 
-func (r *run) store(st drv.Step) {
-	dm := st["duty"].(map[string]any)
+// buildSet turns the entries of a Store step into the real UnsignedDataSet (and the query keys it provides).
+func (r *run) buildSet(st drv.Step) (dm map[string]any, duty core.Duty, set core.UnsignedDataSet, entries []any, provided []string) {
+	dm = st["duty"].(map[string]any)
 	kind := drv.Str(dm["type"])
-	duty := dutyOf(dm)
-	set := core.UnsignedDataSet{}
-	entries, _ := st["set"].([]any)
-	var provided []string
+	duty = dutyOf(dm)
+	set = core.UnsignedDataSet{}
+	entries, _ = st["set"].([]any)
 	for _, e := range entries {
 		em := e.(map[string]any)
 		pk := drv.Str(em["pk"])
@@ -494,6 +539,81 @@ func (r *run) store(st drv.Step) {
 			}
 		}
 	}
+
+	return dm, duty, set, entries, provided
+}
+
+// storeAsync (gate tier): the Store runs in its own goroutine, which logs the return itself. gated: the deadliner's
+// Add for this duty is held at the gate and the driver waits until the call sits there (or has returned);
+// otherwise the call gets a grace period to return, which only decides when the driver goes on, never a verdict.
+func (r *run) storeAsync(st drv.Step, gated bool) {
+	dm, duty, set, entries, _ := r.buildSet(st)
+	if gated {
+		r.dl.arm(duty)
+	}
+	r.dl.mu.Lock()
+	inAdd := r.dl.inAdd
+	r.dl.mu.Unlock()
+	op := r.newOp()
+	done := make(chan struct{})
+	r.bg = append(r.bg, done)
+	r.emit(drv.Step{"ev": "StoreCall", "op": op, "duty": dm, "set": entries})
+	go func() {
+		err := r.db.Store(context.Background(), duty, set)
+		res := "ok"
+		if err != nil {
+			res = "err"
+		}
+		r.emit(drv.Step{"ev": "StoreRet", "op": op, "res": res})
+		close(done)
+	}()
+	if gated {
+		select {
+		case <-inAdd:
+		case <-done:
+		case <-time.After(2 * mustWait):
+			r.hung.Store(true)
+		}
+
+		return
+	}
+	select {
+	case <-done:
+	case <-time.After(graceWait):
+	}
+}
+
+// releaseGate lets the held Add return and waits for every background Store.
+func (r *run) releaseGate() {
+	r.dl.release()
+	for _, d := range r.bg {
+		select {
+		case <-d:
+		case <-time.After(2 * mustWait):
+			r.hung.Store(true)
+			return
+		}
+	}
+	r.bg = nil
+}
+
+// awaitShort (gate tier): an Await* with a short-lived context: it returns what is there, or the context error.
+func (r *run) awaitShort(st drv.Step) {
+	r.await(st, false)
+	r.qmu.Lock()
+	q := r.qs[drv.Num(st["q"])]
+	r.qmu.Unlock()
+	select {
+	case <-q.returned:
+		return
+	case <-time.After(shortCtx):
+	}
+	r.cancelQ(q.id, true)
+}
+
+func (r *run) store(st drv.Step) {
+	dm, duty, set, entries, provided := r.buildSet(st)
+	kind := drv.Str(dm["type"])
 	op := r.newOp()
 	r.emit(drv.Step{"ev": "StoreCall", "op": op, "duty": dm, "set": entries})
 	r.dl.mu.Lock()
@@ -726,6 +846,14 @@ func (r *run) step(st drv.Step, seqMode bool) {
 		r.expire(st, seqMode)
 	case "PubKey":
 		r.pubkey(st)
+	case "StoreGated":
+		r.storeAsync(st, true)
+	case "StoreBg":
+		r.storeAsync(st, false)
+	case "Release":
+		r.releaseGate()
+	case "AwaitShort":
+		r.awaitShort(st)
 	case "Yield":
 		runtime.Gosched()
 	default:
@@ -735,6 +863,7 @@ func (r *run) step(st drv.Step, seqMode bool) {
 
 // finish: every query still outstanding is cancelled and must return.
 func (r *run) finish() {
+	r.releaseGate()
 	r.qmu.Lock()
 	var qs []*query
 	for _, q := range r.qs {
@@ -843,6 +972,11 @@ func runOne(t *testing.T, tr *drv.Tracer, sid int, sched []drv.Step) *run {
 	mode := "seq"
 	if len(sched) > 0 && drv.Str(sched[0]["op"]) == "Conc" {
 		mode = "conc"
+	}
+	for _, st := range sched {
+		if drv.Str(st["op"]) == "StoreGated" {
+			mode = "gate"
+		}
 	}
 	r.emit(drv.Step{"ev": "Reset", "sid": sid, "mode": mode})
 	for _, st := range sched {
